@@ -482,9 +482,9 @@ class CallGraph:
         s = self.sum[k]
         # user callbacks (merge, dupsort, filters) cannot name the library's private records:
         # they write only what is handed to them through arguments
-        if s.wglobal:
-            return None
         out = {fld for (_r, fld) in s.wfields}
+        if s.wglobal:
+            out.add("*")
         if s.wderef:
             out.add("*")
         return out
